@@ -29,6 +29,7 @@ type c09Spec struct {
 	Match   int    `json:"match"`
 	Static  bool   `json:"static"`
 	Replace int    `json:"replace_match"` // dynamic: match index after update (-1: none)
+	Rename  bool   `json:"replace_renames,omitempty"` // the update also gives the handler another id
 	Remove  bool   `json:"remove"`
 }
 
@@ -38,6 +39,7 @@ type c09Scenario struct {
 	Specs              []c09Spec    `json:"specs"`
 	UpdateMissingTopic bool         `json:"update_event_on_missing_topic"`
 	SlowUs             int          `json:"slow_handler_us"`
+	PaceMs             int          `json:"publisher_pace_ms,omitempty"` // virtual pause between a publisher's events: they then fall into several aggregate intervals
 	AnonChurn          int          `json:"anon_churn"`
 	Config             string       `json:"config"`
 }
@@ -116,6 +118,7 @@ func c09Gen(c *Ctx) *c09Scenario {
 			s.Static = false
 			if g.Bool() {
 				s.Replace = g.Intn(len(c09Matches))
+				s.Rename = g.Bool()
 			}
 			s.Remove = g.Bool()
 		}
@@ -134,6 +137,9 @@ func c09Gen(c *Ctx) *c09Scenario {
 	}
 	if g.Chance(1, 3) {
 		sc.AnonChurn = g.Range(1, 4)
+	}
+	if g.Chance(1, 3) {
+		sc.PaceMs = []int{300, 700, 1100}[g.Intn(3)]
 	}
 	return sc
 }
@@ -333,6 +339,9 @@ func runC09(c *Ctx) Verdict {
 						simrt.Count("obs.collect_error")
 						cl.failed = c09Failed(err)
 					}
+					if sc.PaceMs > 0 {
+						time.Sleep(time.Duration(sc.PaceMs) * time.Millisecond)
+					}
 				}
 			}(p, evs)
 		}
@@ -382,8 +391,15 @@ func runC09(c *Ctx) Verdict {
 				}
 				simrt.Count("probe.spec_registered_midway")
 				cur := s.Match
+				id := specID(i)
 				if s.Replace >= 0 {
-					if err := d.Alert.UpdateHandlerSpec(mkSpec(i, s, cur), mkSpec(i, s, s.Replace)); err != nil {
+					ns := mkSpec(i, s, s.Replace)
+					if s.Rename {
+						ns.ID += "r"
+						id = ns.ID
+						simrt.Count("probe.spec_renamed_midway")
+					}
+					if err := d.Alert.UpdateHandlerSpec(mkSpec(i, s, cur), ns); err != nil {
 						verdict = Fail("harness/setup", "update spec: %v", err)
 						return
 					}
@@ -392,7 +408,7 @@ func runC09(c *Ctx) Verdict {
 				}
 				if s.Remove {
 					done := simrt.Expect("DeregisterHandlerSpec", 2_000_000, time.Hour)
-					if err := d.Alert.DeregisterHandlerSpec(s.Topic, specID(i)); err != nil {
+					if err := d.Alert.DeregisterHandlerSpec(s.Topic, id); err != nil {
 						verdict = Fail("harness/setup", "deregister spec: %v", err)
 						return
 					}
@@ -712,7 +728,7 @@ func init() {
 	Register(&Prop{
 		ID:  "C09",
 		Run: runC09,
-		Rule: "case = 1-3 concurrent publishers (1-10/18 events over 3 topics - two with handlers, one that only comes into existence with the first event collected on it, in a third of the cases by all publishers at once - x 2-4 IDs x 4 levels) x 0-2 concurrent readers (TopicState, EventStates(min)) x a registrar (0-3 handler specs of kind publish/aggregate with one of 8 match expressions, registered for the whole run or added/replaced/removed midway, plus anonymous handler churn; every handler topic has a possibly slow recorder registered first and a never delayed one registered last) x final reads of every topic x optional UpdateEvent on a not-yet-existing topic x one seeded schedule/knob set; " +
+		Rule: "case = 1-3 concurrent publishers (1-10/18 events over 3 topics - two with handlers, one that only comes into existence with the first event collected on it, in a third of the cases by all publishers at once - x 2-4 IDs x 4 levels) x 0-2 concurrent readers (TopicState, EventStates(min)) x a registrar (0-3 handler specs of kind publish/aggregate with one of 8 match expressions, registered for the whole run or added/replaced (keeping or changing the handler id)/removed midway, plus anonymous handler churn; every handler topic has a possibly slow recorder registered first and a never delayed one registered last) x publishers pausing 0/300/700/1100 virtual ms between events (several aggregate intervals) x final reads of every topic x optional UpdateEvent on a not-yet-existing topic x one seeded schedule/knob set; " +
 			"non-trivial = some topic history has >= 3 operations; distinct = distinct (scenario, interleaving signature) pairs",
 		Real:        []string{"services/alert Service (Collect, UpdateEvent, TopicState, EventStates, Register/Update/DeregisterHandlerSpec, Register/DeregisterAnonHandler, match/publish/aggregate handlers)", "alert.Topics, Topic, bufHandler", "tick/stateful (match expressions)", "services/storage (handler spec DAO) over real bbolt"},
 		Stub:        []string{"recording alert.Handler registered through the real service", "porcupine v1.3.0 as the linearizability checker (uninstrumented, runs after the world)", "libflux C stub (never called)"},
